@@ -143,10 +143,7 @@ func (ex *Exec) loopHead(fr *Frame, b *ssa.BasicBlock, ord int, pred *ssa.BasicB
 		}
 		return false
 	}
-	if fr.depth > 0 && c == nil {
-		vc.fatalf("loop %d in inlined function %s has no contract", ord, fr.fn.Name())
-		return false
-	}
+	// (a loop of an inlined helper without contract is cut like any loop without invariant)
 	// entry
 	fs := evalInvs(st, true)
 	for i, f := range fs {
